@@ -15,13 +15,14 @@ GenNext ==
      ELSE \/ \E t \in Txns : (Begin(t) /\ nops < MaxOps - 2) \/ Discard(t) \/ (\E r \in {"ok", "conflict"} : Commit(t, r))
           \/ \E t \in OpenT, d \in Docs, r \in Res :
                /\ Interesting(View(t)[d], r) \/ (r = "err" /\ View(t)[d] >= 0)
-               /\ TCreate(t, d, r) \/ TDelete(t, d, r) \/ (\E v \in 1..MaxVal : TUpdate(t, d, v, r))
+               /\ TCreate(t, d, r) \/ TDelete(t, d, r) \/ TTouch(t, d, r) \/ (\E v \in 1..MaxVal : TUpdate(t, d, v, r))
           \/ \E t \in OpenT : TQuery(t, Rows(View(t))) \/ TIds(t, Names(View(t))) \/ (\E d \in Docs : TGet(t, d, GetRes(View(t)[d])))
           \/ IIds(Names(db)) \/ (\E d \in Docs : IGet(d, GetRes(db[d])))
           \/ \E d \in Docs, r \in Res :
                /\ Interesting(db[d], r) \/ (r = "err" /\ db[d] >= 0)
-               /\ ICreate(d, r, FALSE) \/ IDelete(d, r, FALSE) \/ (\E v \in 1..MaxVal : IUpdate(d, v, r, FALSE))
+               /\ ICreate(d, r, FALSE) \/ IDelete(d, r, FALSE) \/ ITouch(d, r, FALSE) \/ (\E v \in 1..MaxVal : IUpdate(d, v, r, FALSE))
           \/ IQuery(Rows(db))
+          \/ \E s \in SubIds : (Subscribe(s) /\ Cardinality(subs) < 3) \/ (Unsubscribe(s) /\ Cardinality(subs) > 1)
 GenSpec == Init /\ [][GenNext]_vars
 
 Export == CSVWrite("%1$s", <<ToJson(hist')>>, IOEnv.VERIF_OUT)
